@@ -596,7 +596,7 @@ func (c16Fataler) Fatal(a ...interface{}) { panic(fmt.Sprint(a...)) }
 
 func c16RaceWorkload() *verifReport {
 	var t c16Fataler
-	rep := newVerifReport("C16", "(3) race detector (go test -race, halt_on_error=0) over a mixed concurrent workload on the real handlers: login, certificate issuance, U2F begin/finish, TOTP, token manage, push start/poll, OAuth2 begin, profile pages and the unseal transition racing readiness/public readers; reports de-duplicated by their innermost keymaster frames; in scope = both stacks' innermost non-runtime frames lie in the keymaster module and at least one stack descends from an HTTP handler; class = (workload step kind)")
+	rep := newVerifReport("C16", "(3) race detector (go test -race, halt_on_error=0) over a mixed concurrent workload on the real handlers: login, certificate issuance, U2F begin/finish, TOTP, token manage, push start/poll, OAuth2 begin, profile pages and the unseal transition racing readiness/public readers; reports de-duplicated by their innermost keymaster frames; in scope = no dependency frame innermost on either stack, at least one stack's innermost non-library frame lies in the keymaster module (the other too, or that stack is pure standard library) and a request-serving goroutine is involved; class = (workload step kind)")
 	vip := newVerifFakeVIP()
 	defer vip.Server.Close()
 	idp := newVerifFakeIdP()
@@ -711,14 +711,20 @@ func c16ParseRaceLogs(rep *verifReport) {
 		rep.Inconc("GORACE log_path not set: the race detector's reports cannot be read (was the binary built with -race?)")
 		return
 	}
-	files, _ := filepath.Glob(m[1] + "*")
+	c16ClassifyRaceLogs(rep, m[1], "")
+	rep.Count("race_workload_done", 1)
+}
+
+// c16ClassifyRaceLogs reads the race detector's log files <prefix>* and reports the in-scope ones.
+func c16ClassifyRaceLogs(rep *verifReport, prefix, label string) {
+	files, _ := filepath.Glob(prefix + "*")
 	var text string
 	for _, f := range files {
 		b, _ := os.ReadFile(f)
 		text += string(b)
 	}
 	blocks := strings.Split(text, "WARNING: DATA RACE")
-	rep.Extra["race_reports_raw"] = len(blocks) - 1
+	rep.Extra["race_reports_raw"+label] = len(blocks) - 1
 	seen := map[string]int{}
 	inScope := map[string]string{}
 	const km = "github.com/Cloud-Foundations/keymaster/"
@@ -730,8 +736,8 @@ func c16ParseRaceLogs(rep *verifReport) {
 		var tops []string
 		handler := false
 		for si, s := range secs {
-			if strings.Contains(s, "ServeHTTP") {
-				handler = true
+			if strings.Contains(s, "ServeHTTP") || strings.Contains(s, "net/http.(*conn).serve") {
+				handler = true // a request handler or the connection-serving goroutine around it (TLS handshake)
 			}
 			if si > 1 {
 				continue // goroutine creation stacks
@@ -743,10 +749,11 @@ func c16ParseRaceLogs(rep *verifReport) {
 				}
 				fn := strings.TrimSpace(strings.SplitN(line, "(", 2)[0])
 				first := strings.SplitN(fn, "/", 2)[0]
-				if !strings.Contains(first, ".") || !strings.Contains(fn, "/") {
+				isMain := strings.HasPrefix(fn, "main.") // the daemon binary's own package (engine B logs)
+				if !isMain && (!strings.Contains(first, ".") || !strings.Contains(fn, "/")) {
 					continue // runtime / standard library frame
 				}
-				if strings.HasPrefix(fn, km) {
+				if strings.HasPrefix(fn, km) || isMain {
 					top = strings.SplitN(line, "()", 2)[0]
 					top = strings.TrimSpace(top)
 				} else {
@@ -759,7 +766,10 @@ func c16ParseRaceLogs(rep *verifReport) {
 		sort.Strings(tops)
 		key := strings.Join(tops, " <-> ")
 		seen[key]++
-		scope := len(tops) == 2 && tops[0] != "" && tops[1] != "" && !strings.HasPrefix(tops[0], "dep:") && !strings.HasPrefix(tops[1], "dep:") && handler
+		// in scope: no dependency frame on top of either stack, at least one stack's innermost non-library frame is
+		// keymaster's (the other's too, or that stack is pure standard library working on an object keymaster shares
+		// with it, e.g. a TLS handshake reading a pool main() is modifying), and a serving goroutine is involved
+		scope := len(tops) == 2 && (tops[0] != "" || tops[1] != "") && !strings.HasPrefix(tops[0], "dep:") && !strings.HasPrefix(tops[1], "dep:") && handler
 		if strings.Contains(key, "verif") { // harness frames are not keymaster's
 			scope = false
 		}
@@ -772,15 +782,14 @@ func c16ParseRaceLogs(rep *verifReport) {
 		out = append(out, fmt.Sprintf("%dx %s", n, k))
 	}
 	sort.Strings(out)
-	rep.Extra["race_report_classes"] = out
+	rep.Extra["race_report_classes"+label] = out
 	for k, b := range inScope {
 		fn := strings.NewReplacer("github.com/Cloud-Foundations/keymaster/cmd/keymasterd.", "", "(*RuntimeState).", "").Replace(k)
-		rep.Violate("C16/data-race/"+fn, "the race detector reported a data race between request handlers", map[string]string{"frames": k, "report": b})
+		rep.Violate("C16/data-race/"+label+fn, "the race detector reported a data race between request handlers", map[string]string{"frames": k, "report": b})
 	}
 	for k := range seen {
 		if _, ok := inScope[k]; !ok {
 			rep.Obs("race report outside the property's scope (dependency, start-up or harness frames): %s", k)
 		}
 	}
-	rep.Count("race_workload_done", 1)
 }
